@@ -72,6 +72,10 @@ def _gen_t(rng, names, composite):
                         ["X", "int"]])
         if T.tname(a) == T.tname(b):
             return a
+        if rng.random() < 0.2 and a[0] == "D":
+            # (A & B) & C : a chain of intersections with a value condition somewhere in it
+            x, y = rng.sample(["int", "object", "MyInt", ["H", "bit_length"], ["D", "int", "ge3"], ["D", "object", "truthy"]], 2)
+            return rng.choice([["I", ["I", a, x], y], ["I", x, ["I", y, a]], ["I", ["I", x, y], a]])
         if rng.random() < 0.25 and a[0] == "D":
             # (A & B) | C : an intersection of dependent types as a member of a union
             c = rng.choice([gen.gen_dep_tx(rng, names), rng.choice(["str", "int", "MyInt"] + names)])
